@@ -408,6 +408,23 @@ class Interp:
             return [Result(r.kind, unbox(r.value, r.state), r.state) if r.kind == "val" and is_handle(r.value) else r for r in rs]
         return rs
 
+    _FRESH_CONTAINER_CALLS = ("list", "dict", "set", "Counter", "collections.Counter", "defaultdict", "collections.defaultdict", "OrderedDict", "collections.OrderedDict")
+
+    def _box_members(self, exprs, r):
+        """A list / dict / set made inside another container is an object of its own: it goes to the heap, so that
+        `outer[k].append(x)` changes it where every holder of `outer` sees it."""
+        if not getattr(self.domain, "heap", False):
+            return r
+        vals_, st = list(r.value), r.state
+        for i, (x, v) in enumerate(zip(exprs, vals_)):
+            fresh = isinstance(x, (ast.List, ast.Dict, ast.Set, ast.ListComp, ast.DictComp, ast.SetComp)) or (
+                isinstance(x, ast.Call) and dotted(x.func) in self._FRESH_CONTAINER_CALLS)
+            if fresh and isinstance(v, tuple) and v[:1] in (("tuple",), ("kwdict",), ("set",)):
+                n = st.get("ev.heap", 0)
+                st = st.set("ev.heap", n + 1).set(heap_key(("h", n)), v)
+                vals_[i] = ("h", n)
+        return val(tuple(vals_), st) if st is not r.state else r
+
     def _eval(self, e, st, fr):
         self.steps += 1
         if self.steps > self.max_steps or (self.steps & 1023 == 0 and time.time() - self.t0 > self.max_seconds):
@@ -530,6 +547,7 @@ class Interp:
                 if r.kind == "exc":
                     out.append(r)
                 else:
+                    r = self._box_members(list(e.elts), r)
                     if any(isinstance(x, ast.Starred) for x in e.elts):
                         # [*a, b]: exact when every starred part is an exact sequence
                         items = []
@@ -559,6 +577,7 @@ class Interp:
                 if r.kind == "exc":
                     out.append(r)
                     continue
+                r = self._box_members([x for x in list(e.keys) + list(e.values) if x is not None], r)
                 items = None
                 if exact:
                     keys_, vals_ = r.value[: len(e.keys)], r.value[len(e.keys):]
@@ -1008,6 +1027,12 @@ class Interp:
         return hook(self, value, st, fr) if hook is not None else None
 
     def _key_of(self, e, fr, st=None, follow=True):
+        if follow and st is not None and isinstance(e, ast.Subscript) and getattr(self.domain, "heap", False) \
+                and not any(isinstance(n, (ast.Call, ast.NamedExpr, ast.Yield, ast.YieldFrom, ast.Await)) for n in ast.walk(e)):
+            # outer[k] naming a list / dict that lives on the heap (evaluating names, attributes and constants has no effects)
+            got = self._eval(e, st, fr)
+            if len(got) == 1 and got[0].kind == "val" and is_handle(got[0].value):
+                return heap_key(got[0].value)
         key = self._slot_of(e, fr, st)
         if follow and key is not None and st is not None and is_handle(st.get(key, None)):
             return heap_key(st.get(key))   # the slot refers to a shared object: reads and in-place updates go to that object
@@ -1096,7 +1121,7 @@ class Interp:
                         out.append((kind, payload, s2))
             cur = list(nxt)
             if len(cur) > self.max_states:
-                raise Undecided("abstract state set exceeded its budget")
+                raise Undecided(f"abstract state set exceeded its budget after line {getattr(s, 'lineno', '?')} of {fr.name}")
         out.extend(("next", None, st) for st in cur)
         return self._dd(out)
 
@@ -1411,47 +1436,62 @@ class Interp:
         return self._dd(out)
 
     def _eager_comprehension(self, comp, st, fr):
-        """[elt for target in <exact sequence> if conds] -> ("tuple", v0, v1, ...); None when the
+        """[elt for target in <exact sequence> if conds for ...] -> ("tuple", v0, v1, ...); None when an
         iterated value is not an exact sequence (the domain's <comprehension> hook decides then)."""
-        if isinstance(comp, ast.DictComp) or len(comp.generators) != 1 or comp.generators[0].is_async:
+        if isinstance(comp, ast.DictComp) or any(g.is_async for g in comp.generators):
             return None
-        gen = comp.generators[0]
-        out = []
-        for r in self._forced(self.eval(gen.iter, st, fr), fr):
-            if r.kind == "exc":
-                out.append(r)
-                continue
-            exact = self._exact_elements(r.value)
-            if exact is None:
-                return None
-            cur = [(r.state, ())]
-            for elv in exact:
-                nxt = []
-                for c, acc in cur:
-                    s2 = self.assign(gen.target, elv, c, fr)
-                    states = [s2]
-                    for cond in gen.ifs:
-                        keep = []
-                        for s3 in states:
-                            for br, s4 in self.branch(cond, s3, fr):
-                                if br == "exc":
-                                    out.append(s4)
-                                elif br:
-                                    keep.append(s4)
-                                else:
-                                    nxt.append((s4, acc))
-                        states = keep
-                    for s3 in states:
-                        for r2 in self.eval(comp.elt, s3, fr):
-                            if r2.kind == "exc":
-                                out.append(r2)
-                            else:
-                                nxt.append((r2.state, acc + (r2.value,)))
-                cur = list(dict.fromkeys(nxt))
-            tag = "lazyseq" if isinstance(comp, ast.GeneratorExp) else "tuple"
-            for c, acc in cur:
-                out.append(val((tag,) + acc, c))
-        return out
+        gens = comp.generators
+        excs = []
+
+        def run(gi, states):
+            if gi == len(gens):
+                done = []
+                for c, acc in states:
+                    for r2 in self.eval(comp.elt, c, fr):
+                        if r2.kind == "exc":
+                            excs.append(r2)
+                        else:
+                            done.append((r2.state, acc + (r2.value,)))
+                return done
+            gen = gens[gi]
+            result = []
+            for c, acc in states:
+                for r in self._forced(self.eval(gen.iter, c, fr), fr):
+                    if r.kind == "exc":
+                        excs.append(r)
+                        continue
+                    exact = self._exact_elements(r.value)
+                    if exact is None:
+                        return None
+                    cur = [(r.state, acc)]
+                    for elv in exact:
+                        nxt = []
+                        for c2, acc2 in cur:
+                            passing = [self.assign(gen.target, elv, c2, fr)]
+                            for cond in gen.ifs:
+                                keep = []
+                                for s3 in passing:
+                                    for br, s4 in self.branch(cond, s3, fr):
+                                        if br == "exc":
+                                            excs.append(s4)
+                                        elif br:
+                                            keep.append(s4)
+                                        else:
+                                            nxt.append((s4, acc2))
+                                passing = keep
+                            sub = run(gi + 1, [(s3, acc2) for s3 in passing])
+                            if sub is None:
+                                return None
+                            nxt.extend(sub)
+                        cur = list(dict.fromkeys(nxt))
+                    result.extend(cur)
+            return result
+
+        final = run(0, [(st, ())])
+        if final is None:
+            return None
+        tag = "lazyseq" if isinstance(comp, ast.GeneratorExp) else "tuple"
+        return excs + [val((tag,) + acc, c) for c, acc in final]
 
     def _try(self, s, st, fr):
         d = self.domain
